@@ -158,12 +158,14 @@ func (d Degree) Semitone() (Semitone, bool) {
 		return 0, false
 	}
 
+	// reduce by whole octaves at once (perfect1 is identical to perfect8), a huge degree must not recurse per octave
+	octaves := (d.Value - 1) / (perfect8.Value - 1)
 	e := Degree{
-		Value: d.Value - perfect8.Value + 1, // perfect1 is identical
+		Value: d.Value - octaves*(perfect8.Value-1),
 		Name:  d.Name,
 	}
 	if v, ok := e.Semitone(); ok {
-		return v + degreeSemitoneMap[perfect8], true
+		return v + Semitone(octaves)*degreeSemitoneMap[perfect8], true
 	}
 	return 0, false
 }
